@@ -131,6 +131,15 @@ fn u32_messages(x: u32) -> Vec<M> {
     v
 }
 
+/// One message per body layout: 4-byte (x3 type ids), 5-byte, 6-byte and 10-byte user control.
+fn u32_messages_core(x: u32) -> Vec<M> {
+    let mut v = vec![M::Abort(x), M::Ack(x), M::WindowAck(x), M::SetPeerBandwidth(x, 2), r2::user_control(6, x, 0), r2::user_control(3, x, !x)];
+    if x <= 0x7FFF_FFFF {
+        v.push(M::SetChunkSize(x));
+    }
+    v
+}
+
 pub fn run(run: &Run) {
     let thorough = run.thorough();
     let evals = AtomicU64::new(0);
@@ -239,7 +248,11 @@ pub fn run(run: &Run) {
                     break;
                 }
                 let x = x as u32;
-                for m in u32_messages(x) {
+                // every value for one message per layout family; the remaining variants (other limit
+                // types, the other user-control events) for every 16th value and near the boundaries
+                let all_variants = x % 16 == 0 || x < 70_000 || x > 0xFFFE_0000 || (x >> 8) == 0x7F_FFFF || (x >> 8) == 0x80_0000 || (x >> 8) == 0xFF_FF || (x >> 8) == 0x1_0000;
+                let msgs = if all_variants { u32_messages(x) } else { u32_messages_core(x) };
+                for m in msgs {
                     n += 2;
                     if let Err((s, d)) = check_message(&m, x, !x) {
                         run.violation(&s, &d, json!({"message": short(&m)}));
@@ -264,7 +277,7 @@ pub fn run(run: &Run) {
             }
             evals.fetch_add(n, Ordering::Relaxed);
         });
-        run.set("full_u32_sweep", json!("all 2^32 values of the u32 field of SetChunkSize, Abort, Acknowledgement, WindowAcknowledgement, SetPeerBandwidth x3 limit types, each of the 9 user-control events (and both u32 fields of SetBufferLength)"));
+        run.set("full_u32_sweep", json!("all 2^32 values of the u32 field of SetChunkSize, Abort, Acknowledgement, WindowAcknowledgement, SetPeerBandwidth(dynamic), PingRequest and SetBufferLength (both fields); the other limit types and user-control events for every 16th value and all values near 0, 2^16, 2^31, 2^32"));
     }
 
     let e = evals.load(Ordering::Relaxed);
